@@ -486,6 +486,75 @@ def shared_factor_cases(rng, skels2, skels3, thorough, rows=6):
                         yield (node, tuple(parts), "Formula" if n % 2 else "dict", tuple(masks), rows, ik, entry, out)
 
 
+# --- the same term in two parts, written with another literal multiplier or another factor order ----------
+SHARED_TERM_PAIRS = [
+    # (a) literal scale on one side only / different scales on both sides
+    ("x + 2.5:z", "z + y"), ("z + y", "x + 2.5:z"),
+    ("y + 0.5:x", "x + z"), ("x + z", "y + 0.5:x"),
+    ("0 + 2:A:z", "0 + A:z"), ("0 + A:z", "0 + 2:A:z"),
+    ("1 + 2.5:z", "1 + 4:z + x"), ("2:x:z + y", "x:z"),
+    ("3:A + x", "A + z"), ("0 + B", "0 + 1.5:B + y"),
+    # (b) the same interaction written with the factors in another order
+    ("0 + A:B", "0 + B:A + x"), ("0 + B:A + x", "0 + A:B"),
+    ("x:z + y", "z:x"), ("0 + A:x", "0 + x:A + z"), ("A + B + A:B", "B + A + B:A"),
+    ("C(A):z", "z:C(A) + x"),
+    # both at once
+    ("0 + 2:A:B", "0 + B:A"), ("x + 0.5:z:y", "y:z"),
+]
+
+
+def shared_term_cases(rng, skels2, skels3, thorough, rows=6):
+    """Every 2-part skeleton x every pair above (the same factor combination in both parts, with another
+    literal multiplier and/or another written factor order); thorough adds the 3-part skeletons."""
+    cols = ("x", "y", "z", "A", "B")
+    combos = list(itertools.product(ENTRIES, OUTPUTS, INDEXES))
+    n = 0
+
+    def masks_():
+        out = []
+        for c in cols:
+            k = rng.choice([0, 0, 1])
+            m = 0
+            for i in rng.sample(range(rows), k):
+                m |= 1 << i
+            out.append((c, m))
+        return tuple(out)
+
+    for si, node in enumerate(skels2):
+        for pi, (p1, p2) in enumerate(SHARED_TERM_PAIRS):
+            n += 1
+            if not thorough and (si + pi) % 2:
+                continue  # quick: every pair on every other skeleton (alternating), all pairs x all skeletons in thorough
+            entry, out, ik = combos[n % len(combos)]
+            yield (node, (p1, p2), "Formula" if n % 2 else "dict", masks_(), rows, ik, entry, out)
+    if thorough:
+        for node in skels3:
+            for (p1, p2) in SHARED_TERM_PAIRS:
+                n += 1
+                if n % 3:
+                    continue
+                parts = [p1, p2, rng.choice(POOL)]
+                rng.shuffle(parts)
+                entry, out, ik = combos[n % len(combos)]
+                yield (node, tuple(parts), "Formula" if n % 2 else "dict", masks_(), rows, ik, entry, out)
+
+
+def _run_driver(ctx, b, tasks, cls_prefix):
+    rep = K.Reporter(ctx, b)
+    results = K.run_pool(_worker, tasks, chunk=60)
+    skipped = 0
+    for n_eval, keys, samples, failures in results:
+        b.add_counts(n_eval, keys, samples)
+        skipped += sum(f["skipped"] for f in failures if "skipped" in f)
+        for f in failures:
+            if "skipped" not in f:
+                f["cls"] = cls_prefix + f["cls"]
+        rep.absorb([f for f in failures if "skipped" not in f])
+    rep.note()
+    if skipped:
+        ctx.notes.append(f"bounded:{b.name}: {skipped} cases skipped (a part could not be built separately)")
+
+
 def run_bounded(ctx):
     rng = random.Random(ctx.seed * 7919 + 7)
     ctx.assume(
@@ -553,6 +622,19 @@ def run_bounded(ctx):
         rep.note()
         if skipped:
             ctx.notes.append(f"bounded:shared-factor-ranks: {skipped} cases skipped (a part could not be built separately)")
+    with ctx.bounded(
+        "shared-term-variants",
+        rule=f"the SAME factor combination in two parts of every 2-part skeleton ({len(skels2)}), written with a numeric literal "
+        "multiplier on one side only or different multipliers on both sides (2.5:z vs z, 2:A:z vs A:z, ...) and/or with the "
+        f"factors of an interaction in another order (A:B vs B:A, x:z vs z:x): {len(SHARED_TERM_PAIRS)} pairs, in both part orders; "
+        + (f"thorough: all pairs x all 2-part skeletons and a third of the 3-part ones ({len(skels3)}); " if ctx.thorough
+           else "quick: each pair on every other skeleton; ")
+        + "same contracts as 'structures'",
+        exhaustive=False,
+        bound="2-3 parts, depth<=3, rows=6",
+    ) as b:
+        _run_driver(ctx, b, list(shared_term_cases(random.Random(ctx.seed * 7919 + 78), skels2, skels3, ctx.thorough)),
+                    "shared-term-other-scale-or-order | ")
     if not ctx.explanation:
         ctx.explanation = (
             "bounded stand-in only (no deductive obligations registered in this run): shape / row alignment / "
